@@ -21,8 +21,10 @@ TARGETS = ['valjean.cosette.use:Use.from_func', 'valjean.cosette.use:Use.__init_
 BOUNDS = {'quick': {'use': 'histories of 2 requests: function in {f, another function also named f, h}, injected task in {T1,T2}, key in '
                            "{'result','other'}, positional/keyword, hard/soft; caches start empty",
                     'factory': 'histories of 3 make() calls on one factory (and a copy): extra_args in 2 values, deps/soft_deps in {none, [D]}, name none',
+                    'stacked wrappers': 'a wrapper specialised 2 times (parent: base or an earlier specialisation; task, key, positional/keyword x/y solver-chosen)',
+                    'factories differing in default keywords': '2 make() calls on two sibling factories (v=v1 / v=v2), call-time override none/v1/v2, 2 extra_args; + a wrapper task on each',
                     'closure': 'all hard/soft/none graphs on <= 3 tasks'},
-          'thorough': {'use': 'histories of 3 requests', 'factory': 'histories of 4 make() calls', 'closure': 'all graphs on <= 4 tasks'}}
+          'thorough': {'use': 'histories of 3 requests', 'stacked wrappers': '3 specialisations', 'factories differing in default keywords': '3 make() calls', 'factory': 'histories of 4 make() calls', 'closure': 'all graphs on <= 4 tasks'}}
 ASSUMPTIONS = ['requests are drawn from the finite alphabets listed in the bounds (solver-chosen sequences)',
                'known finding C15-use-cache-key: two Use requests whose generated names coincide (same function NAME and same hard-dependency names) '
                'share one task although they differ in function object, key, keyword, or soft/hard kind -- excluded while listed',
@@ -183,6 +185,130 @@ def make_factory_harness(n):
     return harness
 
 
+# ----------------------------------------------------------------------------- stacked wrappers
+def make_stacked_harness(n):
+    """a wrapper (Use object) is specialised n times by wrapping it again: the base wrapper and every earlier
+    specialisation keep their own injection tables (from_func extends COPIES)"""
+    def harness(ex):
+        from valjean.cosette.use import Use
+        from valjean.cosette.task import Task, TaskStatus
+        from valjean.cosette.env import Env
+
+        class Plain(Task):
+            def do(self, env, config):
+                return {}, TaskStatus.DONE
+        T = [Plain('T0'), Plain('T1'), Plain('T2')]
+        calls = []
+
+        def f(*a, **k):
+            calls.append((a, k))
+            return 'F'
+        keys = ['result', 'other']
+        kws = [None, 'x', 'y']
+        env = Env({t.name: {'result': f'r{i}', 'other': f'o{i}'} for i, t in enumerate(T)})
+        saved = dict(Use._CACHE)
+        try:
+            bkw = kws[ex.choice(3, 'base-kwarg')]
+            base = Use.from_func(func=f, task=T[0], key='result', kwarg=bkw)
+            wrappers = [(base, [] if bkw else ['r0'], {bkw: 'r0'} if bkw else {}, {T[0]})]
+            for r in range(n):
+                parent = wrappers[ex.choice(len(wrappers), f'parent{r}')]
+                tk = 1 + ex.choice(2, f'task{r}')
+                ky = ex.choice(2, f'key{r}')
+                kw = kws[ex.choice(3, f'kwarg{r}')]
+                u = Use.from_func(func=parent[0], task=T[tk], key=keys[ky], kwarg=kw)
+                val = env[T[tk].name][keys[ky]]
+                args = ([] if kw else [val]) + list(parent[1])      # decorator order: the outermost injection comes first
+                kwargs = dict(parent[2])
+                if kw:
+                    kwargs[kw] = val
+                wrappers.append((u, args, kwargs, None))
+            # now (after every specialisation was made) each wrapper still produces a task that calls f its own way
+            good, deps_ok = True, True
+            for u, args, kwargs, _ in wrappers:
+                Use._CACHE.clear()           # the name-keyed cache is the subject of the other jobs
+                t = u.get_task()
+                del calls[:]
+                upd, st = t.do(env, None)
+                if not (len(calls) == 1 and list(calls[0][0]) == args and calls[0][1] == kwargs and st == TaskStatus.DONE):
+                    good = False
+                want_deps = {tt for tt, _ in list(u.inj_args) + list(u.inj_kwargs.values())}
+                if set(t.depends_on) != want_deps:
+                    deps_ok = False
+            ex.check(good, 'stacked:every-wrapper-calls-the-function-with-its-own-injected-values')
+            ex.check(deps_ok, 'stacked:task-depends-on-its-own-injected-tasks')
+            ex.check(list(base.inj_args) == ([] if bkw else [(T[0], 'result')]) and
+                     dict(base.inj_kwargs) == ({bkw: (T[0], 'result')} if bkw else {}), 'stacked:the-wrapped-wrapper-is-not-modified')
+        finally:
+            Use._CACHE.clear()
+            Use._CACHE.update(saved)
+    return harness
+
+
+# ----------------------------------------------------------------------------- factories that differ in their default keywords
+def make_factory_kw_harness(n):
+    """two factories of the same executable that differ only in a construction-time keyword, and call-time overrides:
+    tasks (and the post-processing tasks wrapped around them) are shared only between requests for the same command line"""
+    def harness(ex):
+        import valjean.cosette.run as runmod
+        from valjean.cosette.use import Use
+        from valjean.cosette.task import TaskStatus
+        from valjean.cosette.env import Env
+        facs = [runmod.RunTaskFactory.from_executable('/bin/exe', default_args=['--opt', '{v}'], v='v1'),
+                runmod.RunTaskFactory.from_executable('/bin/exe', default_args=['--opt', '{v}'], v='v2')]
+        reqs, tasks = [], []
+        for r in range(n):
+            which = ex.choice(2, f'factory{r}')
+            callv = [None, 'v1', 'v2'][ex.choice(3, f'call-keyword{r}')]
+            xa = ex.choice(2, f'extra{r}')
+            kw = {} if callv is None else {'v': callv}
+            tasks.append(facs[which].make(extra_args=[['a'], ['b']][xa], **kw))
+            reqs.append((which, callv, xa))
+        ex.note('requests', reqs)
+        eff = [(callv or ['v1', 'v2'][which], xa) for which, callv, xa in reqs]
+        calls = []
+
+        def call_stub(cli, **kw):
+            calls.append(list(cli))
+            return 0
+
+        class _Cfg:
+            def __init__(self, root):
+                self.root = root
+
+            def query(self, s, k):
+                return self.root
+
+        def post(x):
+            return x
+        saved = runmod.call
+        saved_cache = dict(Use._CACHE)
+        Use._CACHE.clear()
+        runmod.call = call_stub
+        tmp = tempfile.mkdtemp(prefix='verif_c15_')
+        try:
+            posts = [Use.from_func(func=post, task=t, key='result').get_task() for t in tasks]
+            for a, b in itertools.combinations(range(n), 2):
+                if reqs[a] == reqs[b]:
+                    ex.check(tasks[a] is tasks[b], 'factory-kw:identical-requests-get-the-same-task')
+                if eff[a] != eff[b]:
+                    ex.check(tasks[a] is not tasks[b], 'factory-kw:different-command-lines-never-share-a-task')
+                    ex.check(posts[a] is not posts[b] and set(posts[a].depends_on) == {tasks[a]} and set(posts[b].depends_on) == {tasks[b]},
+                             'factory-kw:post-processing-of-different-runs-is-never-shared',
+                             detail=f'{tasks[a].name} / {tasks[b].name}')
+            for r in range(n):
+                del calls[:]
+                upd, st = tasks[r].do(Env(), _Cfg(tmp))
+                ex.check(calls == [['/bin/exe', '--opt', eff[r][0]] + [['a'], ['b']][eff[r][1]]] and st == TaskStatus.DONE,
+                         'factory-kw:task-runs-the-requested-command-line')
+        finally:
+            runmod.call = saved
+            Use._CACHE.clear()
+            Use._CACHE.update(saved_cache)
+            shutil.rmtree(tmp, ignore_errors=True)
+    return harness
+
+
 # ----------------------------------------------------------------------------- closure of the dependency graph
 def make_closure_harness(n):
     def harness(ex):
@@ -229,8 +355,12 @@ def make_closure_harness(n):
     return harness
 
 
+HARNESSES = {'use': make_use_harness, 'factory': make_factory_harness, 'closure': make_closure_harness,
+             'stacked': make_stacked_harness, 'factorykw': make_factory_kw_harness}
+
+
 def _job(kind, n, timeout_ms, seed=0):
-    h = {'use': make_use_harness, 'factory': make_factory_harness, 'closure': make_closure_harness}[kind](n)
+    h = HARNESSES[kind](n)
     return run_sym('x', h, timeout_ms=timeout_ms, seed=seed, max_paths=3000000)
 
 
@@ -275,8 +405,10 @@ def _known_job(seed=0):
 def jobs(tier):
     t = 20000
     out = [('known-findings', _known_job, {})]
-    plan = [('use', 1), ('use', 2), ('factory', 2), ('factory', 3), ('closure', 2), ('closure', 3)] if tier == 'quick' else \
-        [('use', 1), ('use', 2), ('use', 3), ('factory', 2), ('factory', 3), ('factory', 4), ('closure', 2), ('closure', 3), ('closure', 4)]
+    plan = [('use', 1), ('use', 2), ('stacked', 2), ('factory', 2), ('factory', 3), ('factorykw', 2), ('closure', 2), ('closure', 3)] \
+        if tier == 'quick' else \
+        [('use', 1), ('use', 2), ('use', 3), ('stacked', 2), ('stacked', 3), ('factory', 2), ('factory', 3), ('factory', 4),
+         ('factorykw', 2), ('factorykw', 3), ('closure', 2), ('closure', 3), ('closure', 4)]
     for kind, n in plan:
         out.append((f'{kind}-{n}', _job, dict(kind=kind, n=n, timeout_ms=t)))
     return out
@@ -284,5 +416,5 @@ def jobs(tier):
 
 def replay(rp):
     kind, n = rp['job'].split('-')
-    h = {'use': make_use_harness, 'factory': make_factory_harness, 'closure': make_closure_harness}[kind](int(n))
+    h = HARNESSES[kind](int(n))
     return replay_sym(h, rp['inputs'])
